@@ -294,3 +294,59 @@ def canonicalise(rel, tree):
             except Exception:
                 # a recipe must never break the analysis; the names simply stay as they are
                 pass
+
+
+# ---------------------------------------------------------------------------------------------------------
+# expression normal form (semantics preserving), applied to every analysed module
+# ---------------------------------------------------------------------------------------------------------
+def _is_const(n):
+    return isinstance(n, ast.Constant) or (isinstance(n, (ast.Tuple, ast.List, ast.Set)) and all(_is_const(e) for e in n.elts))
+
+
+class _NormalForm(ast.NodeTransformer):
+    """* a constant on the left of == / != moves to the right            ('x' == a.b     -> a.b == 'x')
+       * constant list / set displays on the right of in / not in become tuples (x in ['a'] -> x in ('a',))
+       * not (a OP b) for OP in == != in not-in is is-not becomes the complementary comparison
+       * n = n OP k  becomes  n OP= k   for a plain name n and a numeric constant k
+    None of these changes what the program computes; rules are written against the normal form only."""
+
+    _flip = {ast.Eq: ast.NotEq, ast.NotEq: ast.Eq, ast.In: ast.NotIn, ast.NotIn: ast.In, ast.Is: ast.IsNot, ast.IsNot: ast.Is}
+
+    def visit_Compare(self, node):
+        self.generic_visit(node)
+        if len(node.ops) == 1:
+            op, right = node.ops[0], node.comparators[0]
+            if isinstance(op, (ast.Eq, ast.NotEq)) and _is_const(node.left) and not _is_const(right):
+                node.left, node.comparators = right, [node.left]
+            elif isinstance(op, (ast.In, ast.NotIn)) and isinstance(right, (ast.List, ast.Set)) and _is_const(right):
+                new = ast.Tuple(elts=right.elts, ctx=ast.Load())
+                ast.copy_location(new, right)
+                node.comparators = [new]
+        return node
+
+    def visit_UnaryOp(self, node):
+        self.generic_visit(node)
+        if isinstance(node.op, ast.Not) and isinstance(node.operand, ast.Compare) and len(node.operand.ops) == 1 \
+                and type(node.operand.ops[0]) in self._flip:
+            c = node.operand
+            c.ops = [self._flip[type(c.ops[0])]()]
+            return c
+        if isinstance(node.op, ast.Not) and isinstance(node.operand, ast.UnaryOp) and isinstance(node.operand.op, ast.Not) \
+                and isinstance(getattr(node, '_ctx_bool', None), bool):
+            return node.operand.operand
+        return node
+
+    def visit_Assign(self, node):
+        self.generic_visit(node)
+        if len(node.targets) == 1 and isinstance(node.targets[0], ast.Name) and isinstance(node.value, ast.BinOp) \
+                and isinstance(node.value.left, ast.Name) and node.value.left.id == node.targets[0].id \
+                and isinstance(node.value.right, ast.Constant) and isinstance(node.value.right.value, (int, float)) \
+                and not isinstance(node.value.right.value, bool):
+            new = ast.AugAssign(target=node.targets[0], op=node.value.op, value=node.value.right)
+            return ast.copy_location(new, node)
+        return node
+
+
+def normal_form(tree):
+    _NormalForm().visit(tree)
+    ast.fix_missing_locations(tree)
